@@ -250,8 +250,7 @@ theorem Ty.trees_ok : ∀ (t : Ty), t.wf = true → ∀ v, t.wt v = true → ∀
       simp only [Ty.wf, Bool.and_eq_true] at hw
       by_cases hz : mt.zero = true
       · simp only [hz, if_true, Bool.and_eq_true, Bool.not_eq_true'] at hw
-        have hne : mt.isEnum = false := hw.1.2.1
-        have hzc : (Ty.adt mt vs).isZC = true := by simp [Ty.isZC, hz, hw.1.2.2]
+        have hzc : (Ty.adt mt vs).isZC = true := by simp [Ty.isZC, hz, hw.1.2.1]
         have hu := (Ty.units (.adt mt vs) hzc hw').2.1
         cases v with
         | record fs =>
@@ -263,7 +262,15 @@ theorem Ty.trees_ok : ∀ (t : Ty), t.wf = true → ∀ v, t.wt v = true → ∀
             | cons n f r => cases r <;> simp [Ty.trees, hz]
           rw [this, List.length_append, zeros_length]
           exact (zeroTrees_ok pos _ _ hu).toTrees
-        | variant i fs => simp [Ty.wt, hne] at hwt
+        | variant i fs =>
+          rw [Ty.enc_adt_zero_variant mt vs i fs pos hz]
+          have : Ty.trees (.adt mt vs) (.variant i fs) pos
+              = zeroTrees pos (Ty.toMem (.adt mt vs) (.variant i fs)).length (Ty.maxSizeOf (.adt mt vs)) := by
+            cases vs with
+            | nil => simp [Ty.trees, hz]
+            | cons n f r => cases r <;> simp [Ty.trees, hz]
+          rw [this, List.length_append, zeros_length]
+          exact (zeroTrees_ok pos _ _ hu).toTrees
         | _ => simp [Ty.wt] at hwt
       · simp only [hz, if_false, Bool.false_eq_true] at hw
         have hzf : mt.zero = false := by simpa using hz
